@@ -113,7 +113,7 @@ def damaged_sweeps(chk, tool, asan, model_exe, work, tier, stats):
             chk.violation('seal_' + spec['name'], 'a freshly written content file does not end with N + little-endian crc32c of all preceding bytes',
                           dict(shape=spec, content_hex=base.hex()))
             continue
-        conf = L.conf_text(spec)
+        conf = L.conf_text(spec, load=True)
         snap0 = L.snapshot_tree(root)
         sw = L.Sweep(root, spec, NCPU)
         ex = L.mutants_exhaustive(base)
@@ -129,35 +129,65 @@ def damaged_sweeps(chk, tool, asan, model_exe, work, tier, stats):
 
         def sample(ms, k):
             return ms if k <= 1 else ms[off % k::k]
+        light = bool(spec.get('light')) and quick
+        big = quick and len(base) > 1000
+        ro = list(spec.get('run_opts') or [])
+        prim = spec.get('primary_cmd', 'status')
+        exq = sample(ex, 8) if big else ex          # a 4 KB file has 38 000 single-bit/truncation mutants: thorough tier only
+        try:
+            feats = sorted(F.features(base))
+        except Exception as e:
+            feats = []
+            chk.notes.append('feature walk failed on shape %s: %r' % (spec['name'], e))
+        # the valid file must load under the configuration / options the mutants are run with (else the sweep is vacuous)
+        with open(os.path.join(root, 'w0', 'content'), 'wb') as f:
+            f.write(base)
+        rc0, out0 = L.run_tool(tool, ['-c', './w0/conf'] + ro + [prim], root, L.tool_env())
+        if rc0 not in ((0, 2) if prim == 'diff' else (0,)):
+            chk.violation('vacuous_' + spec['name'], 'the VALID content file of shape %s is not loaded by `%s` under the sweep configuration (rc=%r): %s' % (
+                spec['name'], prim, rc0, out0[-300:].decode(errors='replace')), dict(shape=spec, content_hex=base.hex()), no_input=True)
+            continue
+        if spec.get('load_names') and b'Renaming disk' in out0:
+            stats['renamed_disk_found_by_uuid'] = stats.get('renamed_disk_found_by_uuid', 0) + 1
         plan = []     # (binary, sanitize, cmd, mode, mutants, tag)
-        plan.append((tool, False, ['status'], 'conf', ex, 'status'))
+        plan.append((tool, False, ro + [prim], 'conf', exq, prim))
         # boundary-aimed: string length prefixes around the buffer capacities (UUID_MAX, PATH_MAX), 2^31, 2^32-1, over-long varints
-        plan.append((asan, True, ['status'], 'conf', bnd, 'asan_strlen_status'))
-        plan.append((asan, True, None, 'noconf', sample(bnd, 2) if quick else bnd, 'asan_strlen_noconf'))
+        plan.append((asan, True, ro + [prim], 'conf', sample(bnd, 3) if big else bnd, 'asan_strlen_' + prim))
+        plan.append((asan, True, None, 'noconf', sample(bnd, 6 if big else 2) if quick else bnd, 'asan_strlen_noconf'))
+        for xc in spec.get('extra_cmds') or []:
+            plan.append((tool, False, ro + xc, 'conf', sample(exq, 8) if quick else ex, '_'.join(xc)))
+        others = [c for c in ('status', 'diff', 'check', 'sync', 'list') if c != prim and not (spec.get('load_names') and c in ('status', 'list'))]
         if not quick:
-            plan.append((tool, False, ['list'], 'conf', bnd, 'strlen_list'))
-        if quick:
-            plan.append((asan, True, ['status'], 'conf', ex if si in (0, 3) else sample(ex, 6), 'asan_status'))
-            plan.append((asan, True, None, 'noconf', ex if si == 4 else sample(ex, 6), 'asan_noconf'))
+            plan.append((tool, False, ro + ['list'], 'conf', bnd, 'strlen_list'))
+        if light:
+            plan.append((asan, True, ro + [prim], 'conf', sample(exq, 6), 'asan_' + prim))
+            plan.append((asan, True, None, 'noconf', sample(exq, 6), 'asan_noconf'))
+            for cmd in others:
+                plan.append((tool, False, ro + [cmd], 'conf', sample(exq, 16), cmd))
+            plan.append((tool, False, ro + [prim], 'conf', sample(by, 24 if big else 6), 'bytes_' + prim))
+            plan.append((tool, False, ro + [prim], 'conf', rnd[:60], 'random_' + prim))
+        elif quick:
+            plan.append((asan, True, ['status'], 'conf', ex if si == 0 else sample(ex, 6), 'asan_status'))
+            plan.append((asan, True, None, 'noconf', sample(ex, 6), 'asan_noconf'))
             for cmd in ('diff', 'check', 'sync', 'list'):
-                plan.append((tool, False, [cmd], 'conf', sample(ex, 8), cmd))
+                plan.append((tool, False, [cmd], 'conf', sample(ex, 12), cmd))
             plan.append((tool, False, ['status'], 'conf', sample(by, 3), 'bytes_status'))
             plan.append((asan, True, None, 'noconf', sample(by, 12), 'asan_bytes_noconf'))
             plan.append((asan, True, ['status'], 'conf', sample(by, 12), 'asan_bytes_status'))
             plan.append((tool, False, ['status'], 'conf', rnd, 'random_status'))
             plan.append((asan, True, ['list'], 'conf', rnd[:50], 'asan_random_list'))
         else:
-            plan.append((asan, True, ['status'], 'conf', ex, 'asan_status'))
+            plan.append((asan, True, ro + [prim], 'conf', ex, 'asan_' + prim))
             plan.append((asan, True, None, 'noconf', ex, 'asan_noconf'))
-            plan.append((asan, True, ['sync'], 'conf', ex, 'asan_sync'))
-            for cmd in ('diff', 'check', 'sync', 'list'):
-                plan.append((tool, False, [cmd], 'conf', ex, cmd))
-            plan.append((tool, False, ['status'], 'conf', by, 'bytes_status'))
+            plan.append((asan, True, ro + ['sync'], 'conf', ex, 'asan_sync'))
+            for cmd in others:
+                plan.append((tool, False, ro + [cmd], 'conf', ex, cmd))
+            plan.append((tool, False, ro + [prim], 'conf', by, 'bytes_' + prim))
             plan.append((asan, True, None, 'noconf', by, 'asan_bytes_noconf'))
-            plan.append((asan, True, ['status'], 'conf', by, 'asan_bytes_status'))
-            plan.append((tool, False, ['sync'], 'conf', sample(by, 2), 'bytes_sync'))
-            plan.append((tool, False, ['status'], 'conf', rnd, 'random_status'))
-            plan.append((asan, True, ['list'], 'conf', rnd, 'asan_random_list'))
+            plan.append((asan, True, ro + [prim], 'conf', by, 'asan_bytes_' + prim))
+            plan.append((tool, False, ro + ['sync'], 'conf', sample(by, 2), 'bytes_sync'))
+            plan.append((tool, False, ro + [prim], 'conf', rnd, 'random_' + prim))
+            plan.append((asan, True, ro + ['diff' if spec.get('load_names') else 'list'], 'conf', rnd, 'asan_random_list'))
             plan.append((asan, True, None, 'noconf', rnd, 'asan_random_noconf'))
         shape_runs = 0
         t0 = time.time()
@@ -170,7 +200,7 @@ def damaged_sweeps(chk, tool, asan, model_exe, work, tier, stats):
         distinct += len(ex) + len(by) + len(rnd) + len(bnd)
         # model <-> C on the loader: `snapraid -C` and the extracted CodecModel.decode (no configuration) on the valid file and on
         # every mutant: accept/reject must agree (else MODEL-DRIFT); the reject kind (end of file / other) is compared and counted
-        allm = ex + (sample(by, 3) if quick else by) + rnd + (sample(bnd, 2) if quick else bnd)
+        allm = (sample(exq, 4) if light else sample(exq, 2) if quick else exq) + (sample(by, 24 if big else 3) if quick else by) + rnd + (sample(bnd, 6 if big else 2) if quick else bnd)
         bad, n, cl, per = sw.run(tool, base, allm, None, mode='noconf', want=True)
         total_runs += n
         shape_runs += n
@@ -205,13 +235,17 @@ def damaged_sweeps(chk, tool, asan, model_exe, work, tier, stats):
             chk.violation('modified_' + spec['name'], 'commands refused for a damaged content file nevertheless modified the array %s: %s' % (spec['name'], '; '.join(d[:4])),
                           dict(shape=spec, conf=conf, diff=d))
         per_shape.append(dict(shape=spec['name'], bytes=len(base), version=base[7:8].decode(), truncations=len(base), single_bits=8 * len(base),
-                              byte_substitutions=len(by), random_damage=len(rnd), string_fields=nfields, string_length_mutants=len(bnd), runs=shape_runs, wall_s=round(time.time() - t0, 1)))
+                              byte_substitutions=len(by), random_damage=len(rnd), features=feats, exhaustive_in_this_tier=(exq is ex), string_fields=nfields, string_length_mutants=len(bnd), runs=shape_runs, wall_s=round(time.time() - t0, 1)))
         if si == 1:
             total_runs += two_copies(chk, tool, root, spec, base, sw, sample(ex, 40 if quick else 4), stats, counter)
         if len(chk.cov['samples']) < 8:
             m = ex[len(ex) // 3]
             chk.cov['samples'].append(dict(kind='damaged copy', shape=spec['name'], mutant=L.describe(m), verdict='refused'))
-    stats['damage'] = dict(per_shape=per_shape, refusal_classes=classes)
+    have = set(x for p in per_shape for x in p.get('features', []))
+    missing = [x for x in F.REQUIRED_FEATURES if x not in have]
+    if missing:
+        chk.notes.append('record kinds / variants present in NO swept content file: %s' % ', '.join(missing))
+    stats['damage'] = dict(per_shape=per_shape, refusal_classes=classes, features_covered=sorted(have), features_missing=missing)
     return total_runs, distinct
 
 
@@ -269,7 +303,7 @@ def two_copies(chk, tool, root, spec, base, sw, ms, stats, counter):
 
 def kill_points(chk, tool, shim, model_exe, work, tier, stats):
     quick = tier == 'quick'
-    plan = [(1, False), (2, False), (3, False), (2, True)] if quick else [(n, False) for n in range(1, 8)] + [(2, True), (3, True)]
+    plan = [(1, False), (2, False), (3, False), (4, False), (2, True)] if quick else [(n, False) for n in range(1, 8)] + [(2, True), (3, True)]
     total = 0
     allstats = []
     reported = 0
@@ -279,7 +313,7 @@ def kill_points(chk, tool, shim, model_exe, work, tier, stats):
         sc = K.KillScenario(tool, shim, root, nc, chk.rng, big=big)
         try:
             sc.prepare()
-            probs = sc.run_all(quick and big, NCPU)
+            probs = sc.run_all(quick and (big or nc >= 4), NCPU)
         except L.ArrayError as e:
             chk.violation('kill_setup_%d' % nc, 'kill-point scenario with %d content copies could not be set up: %s' % (nc, str(e)[:300]), dict(error=str(e)))
             continue
@@ -397,7 +431,12 @@ def main(tier, replay=None):
                              'in input_distribution); the tie of the models to the C: system-call order + kill points for the save model, accept/reject class of '
                              '`snapraid -C` against the extracted CodecModel.decode on every mutant for the loader model.')
     chk.cov['conditional_theorems'] = CONDITIONAL
-    chk.assumptions = ['UUID_MAX = 128 and PATH_MAX = 4096 are the string buffer capacities of state_read_content (the length-boundary mutants aim at them; '
+    chk.assumptions = ['exercised by oracle only (no model-vs-C comparison of these loader branches; the rejection theorems hold for every configuration k of '
+                       'CodecModel.decode, the extracted model is run without configuration): disk found by uuid after a rename (--test-fake-uuid), REP/BLK '
+                       'rewrites under sync -N / -R, the deprecated m / n records under a configuration',
+                       'a system call that fails (ENOSPC / EIO on open, write, fsync, close, rename, unlink of a copy) is, in SaveModel, a crash point: the '
+                       'command exits and the file system stays what the completed calls made it (save_atomic covers every prefix)',
+                       'UUID_MAX = 128 and PATH_MAX = 4096 are the string buffer capacities of state_read_content (the length-boundary mutants aim at them; '
                        'CodecModel states the same constants)',
                        'rename(2) is atomic and a completed system call survives the death of the process (process kill, not power loss: fsync ordering on a real '
                        'disk is outside this check)',
